@@ -5,8 +5,21 @@
 #include <stdio.h>
 #include <stdlib.h>
 #include "spec.h"
+#include "../contracts/faces.h"
 /* brute-force check of the spec functions themselves for small n */
+static int face_graph_ok(void){
+  /* symmetric, 3-regular, no loops; exactly twelve 5-subsets are rings (one per icosahedron vertex); every face lies in exactly three rings */
+  int inring[20]={0}, rings=0;
+  for(int f=0;f<20;f++) for(int e=0;e<3;e++){ int g=S_FACE_ADJ[f][e]; if(g<0||g>19||g==f||!sf_face_adj(g,f)) return 0;
+    for(int e2=0;e2<e;e2++) if(S_FACE_ADJ[f][e2]==g) return 0; }
+  for(int a=0;a<20;a++)for(int b=a+1;b<20;b++)for(int c=b+1;c<20;c++)for(int d=c+1;d<20;d++)for(int e=d+1;e<20;e++){
+    int o[5]={a,b,c,d,e}; if(sf_face_ring5(o)){ rings++; for(int i=0;i<5;i++) inring[o[i]]++; } }
+  if(rings!=12) return 0;
+  for(int f=0;f<20;f++) if(inring[f]!=3) return 0;
+  return 1;
+}
 int main(void){
+  if(!face_graph_ok()){ printf("icosahedron face adjacency spec is not a 3-regular symmetric graph with twelve 5-rings\n"); return 1; }
   for (int pent=0; pent<2; pent++) for (int n=0;n<=6;n++){
     long cnt=0; unsigned long prev=~0ul; 
     for (unsigned long y=0; y < (1ul<<(3*n)); y++){
